@@ -160,9 +160,14 @@ class SSHForwarder(asyncio.BaseProtocol):
         if self._peer:
             self._peer.write_eof()
 
-            return not self._peer.was_eof_received()
-        else:
-            return True
+            if self._peer.was_eof_received():
+                # Both directions are done. Returning False only closes
+                # a socket transport, not an SSH channel, so close the
+                # forwarder (and with it the peer) explicitly.
+                self.close()
+                return False
+
+        return True
 
     def pause_writing(self) -> None:
         """Pause writing by asking peer to pause reading"""
